@@ -248,6 +248,87 @@ theorem renorm_flow_neutral (par v a : K) (s : Nat) (hs : 1 ≤ s) (values flows
     have h' : netReturns (x :: raiseFrom a s' xs) (raiseAt a (s' + 1) flows) = netReturns (x :: xs) flows := h
     simp only [renormPrices, cumReturns, h']
 
+/-! ### the normalising value as a series -/
+
+section Series
+variable {K : Type} [Field K] [LinearOrder K]
+
+theorem ofNum_some (x : K) : Renorm.ofNum x = some x := by simp [Renorm.ofNum]
+
+theorem cumFromO_some (acc : K) (l : List K) : cumFromO acc (l.map some) = (cumFrom acc l).map some := by
+  induction l generalizing acc with
+  | nil => rfl
+  | cons x xs ih => simp [cumFromO, cumFrom, ih]
+
+theorem scaled_some : ∀ (rs bs : List K), scaled rs (bs.map some) = (List.zipWith (fun r b => r / b) rs bs).map some
+  | [], _ => by cases ‹List K› <;> rfl
+  | _ :: _, [] => rfl
+  | r :: rs, b :: bs => by simp [scaled, ofNum_some, scaled_some rs bs]
+
+theorem scaled_const (v : K) : ∀ (rs : List K) (n : Nat), rs.length ≤ n →
+    scaled rs (List.replicate n (some v)) = (rs.map fun r => r / v).map some
+  | [], n, _ => by cases n <;> rfl
+  | _ :: _, 0, h => by simp at h
+  | r :: rs, n + 1, h => by
+    simp only [List.replicate_succ, scaled, Option.bind_some, ofNum_some, List.map_cons]
+    rw [scaled_const v rs n (by simpa using h)]
+
+/-- the engine's additive recursion, from a running total, on ANY list of bases -/
+theorem additiveFrom_bases (par c : K) : ∀ (values flows bases : List K),
+    additiveFrom par (par * (1 + c)) values flows bases =
+      (cumFrom c (List.zipWith (fun r b => r / b) (netReturns values flows) bases)).map (fun x => par * (1 + x))
+  | [], _, _ => by simp [additiveFrom, netReturns, cumFrom]
+  | [_], fl, _ => by
+    cases fl with
+    | nil => simp [additiveFrom, netReturns, cumFrom]
+    | cons _ t => cases t <;> simp [additiveFrom, netReturns, cumFrom]
+  | _ :: _ :: _, [], _ => by simp [additiveFrom, netReturns, cumFrom]
+  | _ :: _ :: _, [_], _ => by simp [additiveFrom, netReturns, cumFrom]
+  | _ :: _ :: _, _ :: _ :: _, [] => by simp [additiveFrom, cumFrom]
+  | v0 :: v1 :: vs, f0 :: f1 :: fs, b :: bs => by
+    have ih := additiveFrom_bases par (c + ((v1 - v0) - f1) / b) (v1 :: vs) (f1 :: fs) bs
+    have e : par * (1 + c) + (v1 - (v0 + f1)) / b * par = par * (1 + (c + ((v1 - v0) - f1) / b)) := by ring
+    simp only [additiveFrom, netReturns, List.zipWith_cons_cons, cumFrom, List.map_cons]
+    rw [e, ih]
+
+/-- **Renormalising by the bases the engine used reproduces the strategy's own index**: for every list of bases (the previous
+    date's notional, or the date's own when that was negligible - whatever `fi_index_additive` divided by), the additive index is
+    the series `RenormalizedFixedIncomeResult` computes for the normaliser whose rows 1.. are those bases (row 0 is never used).
+    No hypothesis on lengths, values, flows or bases. -/
+theorem renormS_eq_additive_index (par : K) (cell0 : Option K) (values flows bases : List K) :
+    renormPricesS par (cell0 :: bases.map some) values flows = (additiveIndex par values flows bases).map some := by
+  cases values with
+  | nil => rfl
+  | cons x xs =>
+    have h := additiveFrom_bases par 0 (x :: xs) flows bases
+    rw [add_zero, mul_one] at h
+    simp only [renormPricesS, additiveIndex, List.tail_cons, scaled_some, cumFromO_some, List.map_cons, List.map_map, h]
+    congr 1
+
+/-- the scalar normaliser is the constant series: on an ordered field the pandas-faithful series model (what the driver runs) gives
+    exactly the rows of `renormPrices`, none of them missing -/
+theorem renormPricesS_const (par v : K) (values flows : List K) (h : flows.length = values.length) :
+    renormPricesS par (List.replicate values.length (some v)) values flows = (renormPrices par v values flows).map some := by
+  cases values with
+  | nil => rfl
+  | cons x xs =>
+    have hl : (netReturns (x :: xs) flows).length ≤ xs.length := by
+      rw [netReturns_length (x :: xs) flows h]; simp
+    simp only [renormPricesS, renormPrices, cumReturns, List.length_cons, List.replicate_succ, List.tail_cons,
+      scaled_const v _ _ hl, List.map_cons]
+    rw [cumFromO_some]
+    simp only [List.map_map]
+    congr 1
+
+/-- a missing normaliser cell: that row is missing, the running total carries on (pandas' skipna `cumsum`) -/
+example : renormPricesS (100 : Rat) [none, some 1000, none, some 1000] [1000, 1010, 1030, 1040] [1000, 0, 0, 0] =
+    [some 100, some 101, none, some 102] := by decide +kernel
+
+example : renormPricesS (100 : Rat) [none, some 1000, some 2000] [1000, 1520, 1515] [1000, 500, 0] =
+    (additiveIndex (100 : Rat) [1000, 1520, 1515] [1000, 500, 0] [1000, 2000]).map some := by decide +kernel
+
+end Series
+
 /-! ### non-vacuity: a three-date run over Q -/
 
 -- value 1000 (start), a flow of 500 on date 1 with a P&L of 20, then a P&L of -5; v = 1000, PAR = 100
